@@ -101,6 +101,12 @@ def equivalent_tol(A, B):
     return pp.implied_all(A, B) is None and pp.implied_all(B, A) is None
 
 
+def robustly_satisfiable(ts):
+    """some point INSIDE the box |v| <= 1000 satisfies every constraint with the tolerance to spare (the numerical reading of the
+    properties): only then is the file reader, which re-simplifies with an LP, required to accept the contract"""
+    return pp.is_feasible(pp.shrink(ts, pp.TOL) + lp.box_terms(lp.term_vars(ts), pp.BOX))
+
+
 def rounded(ts):
     return [({v: r4(a) for v, a in t[0].items()}, r4(t[1])) for t in ts]
 
@@ -237,8 +243,8 @@ def check(ctx):
                     os.remove(fn)
                 stats["machine_files" if machine else "string_files"] += 1
                 if okind != "ok":
-                    if v[0] == 2 and not pp.is_feasible(c["a"] + c["g"]):
-                        continue      # the reader re-simplifies: an unsatisfiable contract raises ValueError
+                    if v[0] == 2 and not robustly_satisfiable(c["a"] + c["g"]):
+                        continue      # the reader re-simplifies: a contract without behaviours (inside the box, beyond the tolerance) raises ValueError
                     ctx.violation("serialize:file_unreadable", f"a written {'machine' if machine else 'string'} file could not be read back: {v}", payload)
                     continue
                 back = cf.contract_of(v[0][0])
@@ -249,8 +255,8 @@ def check(ctx):
                     ctx.violation("serialize:file_meaning_changed", f"meaning changed through the {'machine' if machine else 'string'} file round trip",
                                   dict(payload, read_back=cf.jsonable_contract(back)))
         # ---- files with several entries, some sharing a name: every entry comes back, in order, under its name
-        if k % 7 == 0 and pp.is_feasible(c["a"] + c["g"]):
-            others = [o for o in recent if pp.is_feasible(o[1]["a"] + o[1]["g"])][-2:]
+        if k % 7 == 0 and robustly_satisfiable(c["a"] + c["g"]):
+            others = [o for o in recent if robustly_satisfiable(o[1]["a"] + o[1]["g"])][-2:]
             group = [(k1, c)] + others
             if len(group) >= 2:
                 names = ["stage", "mixer", "stage"][:len(group)] if rng.random() < 0.6 else [f"c{j}" for j in range(len(group))]
@@ -285,7 +291,7 @@ def check(ctx):
             lo_c, hi_c = (m4 - F(4, 10000)) * e10, (m4 + F(4, 10000)) * e10
             sgn = 1 if c["g"][0][1] >= 0 else -1
             twins = [dict(c, g=[(c["g"][0][0], sgn * x)] + c["g"][1:]) for x in ((lo_c, hi_c) if rng.random() < 0.5 else (hi_c, lo_c))]
-            if all(pp.is_feasible(t["a"] + t["g"]) for t in twins):
+            if all(robustly_satisfiable(t["a"] + t["g"]) for t in twins):
                 try:
                     objs = [gen.mkcontract(t) for t in twins]
                 except Exception:
